@@ -22,6 +22,7 @@
 //!         "path":[..]?  (replay mode: follow exactly this path from scratch and compare)}
 //! out:   {"id","status":"equal"|"diverge"|"load","playthroughs":n,"steps":n,"lines":n,"max_depth":d,
 //!         "keys_taken":n,"keys_seen":n,"bigrams_taken":n,"taken":[target paths],"frontier_left":[l1,l2],
+//!         "deep_path":[a longest agreed choice path of at most deep_cap choices],
 //!         "exhaustive":bool,"unconfirmed":n,"divergence":{"path":[..],"index":k,"a":..,"b":..}|null (the first of)
 //!         "divergences":[one confirmed divergence per class, class = kind + reference text around the first differing character],"rng_seedings":n}
 //! After a node that differs in texts only (same number of choices, end status, counts, globals) the playthrough goes on.
@@ -166,7 +167,7 @@ fn class_of(a: &str, b: &str) -> String {
     let ac: Vec<char> = a.chars().collect();
     let k = ac.iter().zip(b.chars()).take_while(|(x, y)| *x == y).count();
     let lo = k.saturating_sub(16);
-    let hi = (k + 16).min(ac.len());
+    let hi = (lo + 32).min(ac.len());
     let mut slug = String::new();
     for c in ac[lo..hi].iter() {
         if c.is_ascii_alphanumeric() {
@@ -358,6 +359,8 @@ fn run_case(case: &J) -> J {
     let mut cut = false;
     let mut first = true;
     let (mut dirty, mut rebuilt) = (false, 0usize);
+    let deep_cap = num("deep_cap", 40) as usize;
+    let mut deep: Vec<usize> = Vec::new(); // a longest choice path (<= deep_cap) on which the stories agreed
     let mut ends: HashMap<&'static str, usize> = HashMap::new(); // why playthroughs ended
 
     'outer: loop {
@@ -443,6 +446,9 @@ fn run_case(case: &J) -> J {
             let (lb, cb) = observe(&mut sb, fuel, &globals);
             lines += la.len();
             max_depth = max_depth.max(path.len());
+            if path.len() > deep.len() && path.len() <= deep_cap && la == lb {
+                deep = path.clone();
+            }
             let unclean = |l: &[String]| l.iter().any(|x| x == "panic" || (x.starts_with("end ") && !x.ends_with("nerr=0 nwarn=0")) || x.starts_with("err("));
             if unclean(&la) || unclean(&lb) {
                 dirty = true;
@@ -543,7 +549,7 @@ fn run_case(case: &J) -> J {
         "playthroughs": plays, "steps": steps, "lines": lines, "max_depth": max_depth,
         "keys_taken": taken.len(), "keys_seen": seen.len(), "bigrams_taken": bigrams.len(), "taken": tk,
         "frontier_left": [f1, f2], "exhaustive": !cut && f1 == 0 && f2 == 0,
-        "unconfirmed": unconfirmed, "divergence": divs.first().cloned(), "divergences": divs, "rng_seedings": seeds, "ends": ends, "rebuilt": rebuilt,
+        "unconfirmed": unconfirmed, "divergence": divs.first().cloned(), "divergences": divs, "rng_seedings": seeds, "ends": ends, "rebuilt": rebuilt, "deep_path": deep,
         "ms": t0.elapsed().as_millis() as u64})
 }
 
